@@ -69,6 +69,11 @@ def _field_of(place):
     return None
 
 
+# the extent of an ndarray (or of a quantity array wrapping one) does not change when its elements are written through `&mut`
+SHAPE_QUERIES = ("len", "nrows", "ncols", "shape", "dim", "raw_dim", "len_of", "ndim", "is_empty")
+SHAPE_ONLY = ("#shape", None)
+
+
 def leaves(b, defs, l, depth, out, seen, fields=None, via=None):
     if depth > 12 or (l, via) in seen:
         return
@@ -81,11 +86,22 @@ def leaves(b, defs, l, depth, out, seen, fields=None, via=None):
         return
     for d in defs.of(l):
         if d[0] == "call":
+            shape_query = callee_name(d[2]) in SHAPE_QUERIES and d[2]["args"] and d[2]["args"][0].get("k") in ("copy", "move") \
+                and "ndarray::ArrayBase<" in ((b.opty(d[2]["args"][0]) or {}).get("s") or "")
             for a in d[2]["args"]:
                 if a.get("k") in ("copy", "move"):
-                    leaves(b, defs, a["place"]["l"], depth + 1, out, seen, fields, _field_of(a["place"]))
+                    leaves(b, defs, a["place"]["l"], depth + 1, out, seen, fields, SHAPE_ONLY if shape_query else _field_of(a["place"]))
         else:
             rv = d[4]
+            if via == SHAPE_ONLY and rv["k"] in ("ref", "use", "cast"):
+                # on the way from a shape query (`x.len()`) back to the array: stay "shape only" through borrows and copies
+                ops, pl = _ops(rv)
+                if pl is not None:
+                    leaves(b, defs, pl, depth + 1, out, seen, fields, SHAPE_ONLY)
+                for o in ops:
+                    if o.get("k") in ("copy", "move"):
+                        leaves(b, defs, o["place"]["l"], depth + 1, out, seen, fields, SHAPE_ONLY)
+                continue
             ops, pl = _ops(rv)
             if pl is not None:
                 leaves(b, defs, pl, depth + 1, out, seen, fields, _field_of(rv["place"]))
@@ -220,7 +236,10 @@ def census(F, scopes):
                             leaves(b, defs, o["place"]["l"], 0, out, set(), fields, _field_of(o["place"]))
                     span = b.blocks[d[1]]["stmts"][d[2]].get("span", b.file_line())
                 out.discard(l)
-                stale = {x for x in out & assigned if not _field_kept(b, defs, x, fields.get(x, {None}), body, assigned)}
+                whole = {x for x in out if any(dd[1] in body for dd in defs.whole(x))}
+                stale = {x for x in out & assigned
+                         if not (fields.get(x) == {SHAPE_ONLY} and x not in whole)       # `0..x.len()` while the loop writes elements of x
+                         and not _field_kept(b, defs, x, fields.get(x, {None}) - {SHAPE_ONLY}, body, assigned)}
                 if stale:
                     hits.append(dict(fn=b.path, name=nm, frm=sorted(b.lname(x) or "_%d" % x for x in stale), span=span))
     return hits, n_loops, n_cands
